@@ -229,6 +229,7 @@ namespace vh
         };
 
         std::unique_ptr<G> grid;
+        std::unique_ptr<G> grid2;   // another grid object of the same type, alive next to the first
         std::map<long long, holder> graphs;
         ranker rk;
         std::string lines;
@@ -408,6 +409,8 @@ namespace vh
             dsc = static_cast<int>(gd.get_int("sc", 0));
             grid = grid_maker<G>::make(gd);
             n = grid->size();
+            if (c.has("grid2"))
+                grid2 = grid_maker<G>::make(c["grid2"]);
             {
                 // the grid event: descriptor (interpreted by the TLA+ module Grid) + what the real
                 // grid reports for the facts the flow contracts rely on
@@ -426,7 +429,41 @@ namespace vh
                 // optional steps are skipped when their graph could not be built
                 if (s.get_int("opt", 0) && !graphs.count(g))
                     continue;
-                if (op == "new")
+                if (op == "touch")
+                {
+                    // direct look-ups through the grid API between two calls on the graphs - on the case's own grid
+                    // and on ANOTHER grid object of the same type that is alive at the same time (and, for that
+                    // one, a route update of a graph of its own): grids are values, nothing of this may show
+                    if (s.has("own"))
+                        for (auto i : s["own"].as_ints())
+                        {
+                            volatile size_t sink = grid->neighbors_count(static_cast<size_t>(i));
+                            for (auto x : grid->neighbors_indices(static_cast<size_t>(i)))
+                                sink = sink + x;
+                            (void) sink;
+                        }
+                    if (s.has("other") && grid2)
+                    {
+                        for (auto i : s["other"].as_ints())
+                        {
+                            volatile size_t sink = 0;
+                            for (const auto& nb : grid2->neighbors(static_cast<size_t>(i)))
+                                sink = sink + nb.idx;
+                            (void) sink;
+                        }
+                        if (s.get_int("route", 0))
+                        {
+                            fg_t other(*grid2, { fs::single_flow_router() });
+                            auto z2 = grid_array<G, double>(*grid2, 0.0);
+                            for (size_t i = 0; i < grid2->size(); ++i)
+                                z2.flat(i) = static_cast<double>((i * 7) % 5);
+                            other.update_routes(z2);
+                        }
+                    }
+                    o.str("e", "Touch");
+                    emit(o.done());
+                }
+                else if (op == "new")
                 {
                     holder h;
                     for (auto& e : s["ops"].a)
@@ -889,6 +926,7 @@ namespace vh
                 note("step");
             }
             graphs.clear();  // destructors (worker pool shutdown) run inside the watchdog
+            grid2.reset();
             grid.reset();
             return rk.resolve(lines);
         }
